@@ -58,6 +58,9 @@ FunCons(p) == SelectSeq(p.ucons, LAMBDA c : c \in {"fi", "ci", "dupf"}) \o (IF p
 PepLmis(p) == SelectSeq(p.lmis, LAMBDA c : c # "F2")
 FunLmis(p) == SelectSeq(p.lmis, LAMBDA c : c = "F2")
 ClassRows == 2        \* abstract: the number of class rows is decided by the class (C04), not here
+\* rows of a partition of 2 blocks with 2 decomposed points (+ 1 per "block" edit): k * k orthogonality relations for k
+\* decomposed points (4, 9), plus the user's own constraint on the partition (declared with part = 1 only)
+PartRows(p, nb) == (IF p.part = 1 THEN 1 ELSE 0) + 4 + 5 * nb
 SentList(p, edits, classLmis, partRows) ==
      Rep(Sc("metric"), p.metrics + edits.metric)
   \o <<Sc("pep")>>                                                   \* the initial condition
@@ -101,7 +104,7 @@ Solve ==
               ok == ~Infeasible(sv)
               cl == IF DevF3 THEN nClassLmi + ClassLmis(prog.cls) ELSE ClassLmis(prog.cls)
               nb == Cardinality({i \in 1..Len(sv) : sv[i].edit = "block"})
-              pr == IF prog.part = 0 THEN 0 ELSE IF DevF4 THEN nPartRows + 5 + 5 * nb ELSE 5 + 5 * nb
+              pr == IF prog.part = 0 THEN 0 ELSE IF DevF4 THEN nPartRows + PartRows(prog, nb) ELSE PartRows(prog, nb)
               ed == [metric |-> Cardinality({i \in 1..Len(sv) : sv[i].edit \in {"metric", "step"}}),
                      lmi |-> Cardinality({i \in 1..Len(sv) : sv[i].edit = "lmi"}),
                      fcons |-> Cardinality({i \in 1..Len(sv) : sv[i].edit = "fcons"})]
@@ -134,7 +137,7 @@ SentOnce == phase = "build" \/
    /\ Cardinality({k \in 1..Len(sent) : sent[k].src = "metric"}) = prog.metrics + ed.metric
    /\ Cardinality({k \in 1..Len(sent) : sent[k].src = "class" /\ sent[k].k = "lmi"}) = ClassLmis(prog.cls)
    /\ Cardinality({k \in 1..Len(sent) : sent[k].src = "part"})
-        = (IF prog.part # 0 THEN 5 + 5 * Cardinality({i \in 1..Len(solves) : solves[i].edit = "block"}) ELSE 0)
+        = (IF prog.part # 0 THEN PartRows(prog, Cardinality({i \in 1..Len(solves) : solves[i].edit = "block"})) ELSE 0)
 \* C13: a cached value belongs to the current epoch
 Fresh == cache # 0 => cache = epoch
 \* C05: the native list has exactly one entry per scalar, 1 + n*n per LMI, the Gram PSD first, one extra row with a heuristic
